@@ -500,9 +500,34 @@ func (r *rewriter) isGlobalVar(id *ast.Ident) bool {
 	return true
 }
 
+// isCaptured: inside the function literal lit, id names a local variable of an enclosing function (the
+// literal may run on several goroutines at once — worker closures of parallel.Execute, go statements — and
+// then such a variable is shared between them). Synchronisation objects and channels are visible operations
+// already.
+func (r *rewriter) isCaptured(id *ast.Ident, lit *ast.FuncLit) bool {
+	if lit == nil {
+		return false
+	}
+	v, ok := r.info.Uses[id].(*types.Var)
+	if !ok || v.Pkg() == nil || v.IsField() || v.Parent() == nil || v.Parent() == v.Pkg().Scope() {
+		return false
+	}
+	if v.Pos() >= lit.Pos() && v.Pos() <= lit.End() {
+		return false // declared inside the literal (parameters included)
+	}
+	ts := v.Type().String()
+	if strings.Contains(ts, "sync.") || strings.Contains(ts, "vsched.") || isChan(v.Type()) {
+		return false
+	}
+	if _, isFunc := v.Type().Underlying().(*types.Signature); isFunc {
+		return false
+	}
+	return true
+}
+
 // shallowRefsGlobal: does the statement itself (not the statements nested in its blocks, not function
-// literals) name a package-level variable?
-func (r *rewriter) shallowRefsGlobal(st ast.Stmt) bool {
+// literals) name a package-level variable or, inside the function literal lit, a captured local?
+func (r *rewriter) shallowRefsGlobal(st ast.Stmt, lit *ast.FuncLit) bool {
 	found := false
 	var visit func(n ast.Node) bool
 	visit = func(n ast.Node) bool {
@@ -513,7 +538,7 @@ func (r *rewriter) shallowRefsGlobal(st ast.Stmt) bool {
 		case *ast.BlockStmt, *ast.FuncLit, *ast.CaseClause, *ast.CommClause:
 			return false
 		case *ast.Ident:
-			if r.isGlobalVar(x) {
+			if r.isGlobalVar(x) || r.isCaptured(x, lit) {
 				found = true
 			}
 		}
@@ -523,7 +548,7 @@ func (r *rewriter) shallowRefsGlobal(st ast.Stmt) bool {
 	case *ast.BlockStmt:
 		return false
 	case *ast.LabeledStmt:
-		return r.shallowRefsGlobal(x.Stmt)
+		return r.shallowRefsGlobal(x.Stmt, lit)
 	case *ast.IfStmt:
 		if x.Init != nil {
 			ast.Inspect(x.Init, visit)
@@ -563,14 +588,18 @@ func (r *rewriter) shallowRefsGlobal(st ast.Stmt) bool {
 
 func (r *rewriter) markGlobalAccesses() map[ast.Stmt]bool {
 	marks := map[ast.Stmt]bool{}
-	for _, d := range r.file.Decls {
-		fd, ok := d.(*ast.FuncDecl)
-		if !ok || fd.Body == nil {
-			continue
-		}
-		ast.Inspect(fd.Body, func(n ast.Node) bool {
+	var walk func(n ast.Node, lit *ast.FuncLit)
+	walk = func(n ast.Node, lit *ast.FuncLit) {
+		ast.Inspect(n, func(m ast.Node) bool {
+			if m == nil {
+				return false
+			}
+			if fl, ok := m.(*ast.FuncLit); ok && m != n {
+				walk(fl.Body, fl) // statements of a nested literal are judged against that literal
+				return false
+			}
 			var list []ast.Stmt
-			switch x := n.(type) {
+			switch x := m.(type) {
 			case *ast.BlockStmt:
 				list = x.List
 			case *ast.CaseClause:
@@ -579,12 +608,17 @@ func (r *rewriter) markGlobalAccesses() map[ast.Stmt]bool {
 				list = x.Body
 			}
 			for _, st := range list {
-				if r.shallowRefsGlobal(st) {
+				if r.shallowRefsGlobal(st, lit) {
 					marks[st] = true
 				}
 			}
 			return true
 		})
+	}
+	for _, d := range r.file.Decls {
+		if fd, ok := d.(*ast.FuncDecl); ok && fd.Body != nil {
+			walk(fd.Body, nil)
+		}
 	}
 	return marks
 }
